@@ -1,4 +1,4 @@
-from . import dchecks, rchecks, ochecks, gchecks, echecks, schecks, nchecks
+from . import dchecks, rchecks, ochecks, gchecks, echecks, schecks, nchecks, vchecks
 
 CHECKS = {}
 REPLAYERS = {}
@@ -9,4 +9,5 @@ CHECKS.update(gchecks.CHECKS)
 CHECKS.update(echecks.CHECKS)
 CHECKS.update(schecks.CHECKS)
 CHECKS.update(nchecks.CHECKS)
+CHECKS.update(vchecks.CHECKS)
 REPLAYERS["E"] = echecks.replay_env
